@@ -11,7 +11,7 @@ BOUNDS = dict(quick='lower/upper chain: n <= 4 with x,y symbolic, n <= 7 with co
                     '(general position and degenerate regions), n = 5 on concrete x layouts with y symbolic',
               thorough='lower/upper chain: n <= 5 with x,y symbolic, n <= 8 with concrete x patterns; graham_scan: n <= 4 (x,y symbolic), n <= 6 on concrete x layouts')
 ASSUMPTIONS = ['exact real arithmetic (T1)', 'curves: x strictly increasing; point sets: pairwise distinct points']
-CONFIG = dict(quick=dict(budget_s=160, case_wall_s=140, qtimeout_ms=8000), thorough=dict(budget_s=1700, case_wall_s=1500))
+CONFIG = dict(quick=dict(budget_s=160, case_wall_s=140, qtimeout_ms=8000), thorough=dict(budget_s=900, case_wall_s=700))
 
 LAYOUTS = {  # concrete x layouts for graham_scan (repeated x allowed: vertical runs)
     3: [[0, 1, 2], [0, 0, 1], [1, 1, 1]],
